@@ -20,6 +20,7 @@ func init() {
 		},
 		Assumptions: commonAssumptions,
 		Engines:     "PATH (must-pass-through on the flow graph), CODEC (trace agreement), TABLE, WHO",
+		TagMatrix:   [][]string{{"integration"}},
 		Run:         runC02,
 	})
 }
